@@ -557,11 +557,25 @@ HANDLERS.update({'c01': c01, 'c04': c04})
 # ---------------------------------------------------------------------------------------------------------------
 # C13 / C14: identity and mapping rules, against oracles computed from the generator's AST (tools/cgen.py)
 # ---------------------------------------------------------------------------------------------------------------
-def c13(text, ast, expect, loader_name):
+def c13(text, ast, expect, loader_name, prefix=None):
+    """prefix: an optional first list item (a deep, stateful construction) put in front of the generated document: the rules for the rest must not change"""
     import yaml, signal
-    from tools import cgen
+    from tools import cgen, c17classes
     L = getattr(yaml, loader_name, None)
     if L is None: return dict(bad=[], outcome='no_class')
+    wrapped = False
+    if prefix is not None:
+        if 'Unsafe' in loader_name or loader_name in ('Loader', 'CLoader'):
+            ptext = '!!python/object:tools.c17classes.GetSet {x: &zz1 [1, 2], y: *zz1}'
+        else:
+            class L(L): pass
+            def mk(loader, node):
+                o = c17classes.GetSet(); yield o
+                o.__setstate__(loader.construct_mapping(node, deep=True))
+            L.add_constructor('!stateful', mk)
+            ptext = '!stateful {x: &zz1 [1, 2], y: *zz1}'
+        text = '- ' + ptext + '\n- ' + text + '\n'
+        wrapped = True
     signal.signal(signal.SIGALRM, _alarm); signal.alarm(20)
     try:
         if text.startswith('--- '): obj = list(yaml.load_all(text, Loader=L))
@@ -576,8 +590,7 @@ def c13(text, ast, expect, loader_name):
     if got != expect:
         bad.append(dict(kind='anchor_rule', what='%s: expected %s, got %s' % (loader_name, expect, got), loader=loader_name, exc=got.replace('CRASH ', '')))
     elif got == 'ok':
-        def tup(n): return n          # lists after the JSON round trip; check13 only indexes
-        r = cgen.check13(ast, obj)
+        r = cgen.check13(ast, obj[1] if wrapped else obj)
         if r: bad.append(dict(kind='identity', what='%s: %s' % (loader_name, r), loader=loader_name))
     return dict(bad=bad, outcome=got)
 
@@ -909,24 +922,30 @@ def c11(calls):
     if r['changed']: bad.append(dict(kind='global_state_changed', what='library-global container changed by the calls: %s -> %s' % (str(r['changed'][0][0])[:150], str(r['changed'][0][1])[:150])))
     return dict(bad=bad, outcome='ok' if not bad else 'bad')
 
-def c11s(texts, be):
-    """loading a stream gives the list of what each document gives on its own"""
+def c11s(texts, be, seps=None):
+    """loading a stream gives the list of what each document gives on its own (up to and including the first document that is an error on its own)"""
     import yaml
     from tools.values import show
     L = yaml.SafeLoader if be == 'py' else getattr(yaml, 'CSafeLoader', None)
+    FL = yaml.Loader if be == 'py' else getattr(yaml, 'CLoader', None)
     if L is None: return dict(bad=[], outcome='no_c')
-    single = []
-    for t in texts:
-        try: single.append(show(yaml.load(t, Loader=L)))
-        except yaml.YAMLError as e: return dict(bad=[], outcome='invalid_doc')
-        except Exception as e: return dict(bad=[], outcome='invalid_doc')
-    stream = ''.join(texts)
-    try: got = [show(d) for d in yaml.load_all(stream, Loader=L)]
-    except Exception as e:
-        return dict(bad=[dict(kind='stream_not_list_of_docs', what='documents load one by one but the stream raises %s: %s' % (type(e).__name__, str(e)[:100].replace('\n', ' ')), exc=type(e).__name__, backend=be)], outcome='bad')
     bad = []
-    if got != single:
-        bad.append(dict(kind='stream_not_list_of_docs', what='load_all(stream) = %r but the documents alone give %r' % (got[:3], single[:3]), backend=be))
+    for what, run in (('objects', lambda t, multi: [show(d) for d in (yaml.load_all(t, Loader=L) if multi else [yaml.load(t, Loader=L)])]),
+                      ('node tags', lambda t, multi: [_node_sig(n, {}) for n in (yaml.compose_all(t, Loader=L) if multi else [yaml.compose(t, Loader=L)])])):
+        single = []; err = None
+        for t in texts:
+            try: single += run(t, False)
+            except yaml.YAMLError as e: err = type(e).__name__; break
+            except Exception as e: err = 'NONYAML ' + type(e).__name__; break
+        stream = ''.join((sp or '') + t for sp, t in zip(seps or [''] * len(texts), texts))
+        got = []; gerr = None
+        try:
+            for x in (yaml.load_all(stream, Loader=L) if what == 'objects' else yaml.compose_all(stream, Loader=L)):
+                got.append(show(x) if what == 'objects' else _node_sig(x, {}))
+        except yaml.YAMLError as e: gerr = type(e).__name__
+        except Exception as e: gerr = 'NONYAML ' + type(e).__name__
+        if got[:len(single)] != single or (err is None) != (gerr is None) or (err is None and len(got) != len(single)):
+            bad.append(dict(kind='stream_not_list_of_docs', what='%s: the stream gives %r%s but the documents alone give %r%s' % (what, got[:4], ' then ' + gerr if gerr else '', single[:4], ' then ' + err if err else ''), backend=be)); break
     return dict(bad=bad, outcome='ok' if not bad else 'bad')
 
 HANDLERS.update({'c11': c11, 'c11s': c11s})
@@ -935,6 +954,12 @@ HANDLERS.update({'c11': c11, 'c11s': c11s})
 # C19: failures of the caller's stream or callbacks pass through cleanly
 # ---------------------------------------------------------------------------------------------------------------
 class _Boom(Exception): pass
+def _fault(i):
+    """a unique exception object for fault point i; the class rotates over a bespoke class and every class the library itself catches somewhere"""
+    import binascii
+    classes = [_Boom, TypeError, ValueError, KeyError, IndexError, AttributeError, ImportError, binascii.Error, OSError, RuntimeError,
+               lambda m: UnicodeDecodeError('utf-8', b'x', 0, 1, m), lambda m: UnicodeEncodeError('ascii', 'x', 0, 1, m), AssertionError, LookupError]
+    return classes[i % len(classes)]('fault %d' % i)
 class _WStream:
     """records writes/flushes; raises the given exception object at the k-th write (or flush)"""
     def __init__(s, fail_at=None, exc=None, on='write', binary=False):
@@ -951,7 +976,7 @@ def _ref_ok():
     import yaml
     return yaml.safe_load(yaml.safe_dump({'a': [1, 'x', None]})) == {'a': [1, 'x', None]} and yaml.safe_dump([1, 2]) == '- 1\n- 2\n'
 
-def c19(kind, payload, be, max_points):
+def c19(kind, payload, be, max_points, k0=0):
     import yaml, random
     from tools.values import decode
     bad = []; points = 0
@@ -972,7 +997,7 @@ def c19(kind, payload, be, max_points):
             except Exception as e: return dict(bad=[], outcome='dump_raises')
             total = w0.n
             for i in pick(total):
-                exc = _Boom('fault %d' % i); w = _WStream(fail_at=i, exc=exc, on=on)
+                exc = _fault(i + k0); w = _WStream(fail_at=i, exc=exc, on=on)
                 points += 1
                 try:
                     yaml.dump(v, w, Dumper=D, **o)
@@ -999,7 +1024,7 @@ def c19(kind, payload, be, max_points):
         except yaml.YAMLError: pass
         except Exception: return dict(bad=[], outcome='load_crash')
         for i in pick(r0.k):
-            exc = _Boom('fault %d' % i); points += 1
+            exc = _fault(i + k0); points += 1
             try:
                 for _ in yaml.load_all(RS(data, sizes, i, exc), Loader=L): pass
                 bad.append(dict(kind='fault_swallowed', what='%s: the exception raised by read() call %d did not reach the caller' % (be, i), point=i, backend=be))
@@ -1010,7 +1035,7 @@ def c19(kind, payload, be, max_points):
         n_nodes = payload
         Lb = _classes(be)[1]
         if Lb is None: return dict(bad=[], outcome='no_c')
-        text = '\n'.join('- !f {k%d: [!f x, *a]}' % i if i else '- &a !f 1' for i in range(n_nodes)) + '\n'
+        text = '\n'.join('- !f {k%d: [!f x, *a], d%d: !f y, ? !f z : w}' % (i, i) if i else '- &a !f 1' for i in range(n_nodes)) + '\ntop: !f t\n'.replace('top', '- top')
         def run(fail_at, exc):
             cnt = [0]
             class L(Lb): pass
@@ -1022,7 +1047,7 @@ def c19(kind, payload, be, max_points):
             yaml.load(text, Loader=L); return cnt[0]
         total = run(None, None)
         for i in pick(total):
-            exc = _Boom('fault %d' % i); points += 1
+            exc = _fault(i + k0); points += 1
             try:
                 run(i, exc); bad.append(dict(kind='fault_swallowed', what='%s: the exception raised by the user constructor call %d did not reach the caller' % (be, i), point=i, backend=be))
             except BaseException as e:
@@ -1047,7 +1072,7 @@ def c19(kind, payload, be, max_points):
             yaml.dump(value, stream, Dumper=D); return cnt[0]
         w0 = _WStream(); total = run(None, None, w0)
         for i in pick(total):
-            exc = _Boom('fault %d' % i); points += 1; w = _WStream()
+            exc = _fault(i + k0); points += 1; w = _WStream()
             try:
                 run(i, exc, w); bad.append(dict(kind='fault_swallowed', what='%s: the exception raised by the user representer call %d did not reach the caller' % (be, i), point=i, backend=be))
             except BaseException as e:
@@ -1189,7 +1214,6 @@ def c17(seed, depth, cycle, be):
     if D is None: return dict(bad=[], outcome='no_c')
     try: pk = pickle.loads(pickle.dumps(obj, 2)); want = K.canon(pk)
     except Exception as e: return dict(bad=[], outcome='unpicklable')
-    if want != K.canon(obj): return dict(bad=[], outcome='pickle_not_faithful')
     bad = []
     try: text = yaml.dump(obj, Dumper=D)
     except Exception as e:
